@@ -26,7 +26,7 @@ REQUIRED = {'node-dense': 50, 'get': 50, 'full': 50, 'sum': 50, 'mean': 50,
     'props': 50, 'erank': 50, 'outer': 10, 'int-bitexact': 20,
     'large-exact': 200, 'dtype-upcast': 100, 'shared-objects': 200,
     'accuracy-gap': 30, 'many-sum': 60, 'stab-scalar-product': 100,
-    'get_many': 50}
+    'get_many': 50, 'big-rank-pair': 150}
 ASSUMPTIONS = ['numpy longdouble (64-bit mantissa) contraction is the dense '
     'reference; tolerance 10*(sum ranks + d)*2^-52*absbound',
     'integer mode: exact Python-int contraction, bit equality',
@@ -57,6 +57,8 @@ def gen_cases(seed, tier):
         out.append({'kind': 'manysum', 'seed': int(rng.integers(1 << 62))})
     for j in range(40 if tier == 'quick' else 1000):
         out.append({'kind': 'stabprod', 'seed': int(rng.integers(1 << 62))})
+    for j in range(40 if tier == 'quick' else 800):
+        out.append({'kind': 'bigrank', 'seed': int(rng.integers(1 << 62))})
     for j in range(n):
         out.append({'seed': int(rng.integers(1 << 62)),
             'depth': int(rng.integers(1, 5 if tier == 'quick' else 8)),
@@ -394,6 +396,57 @@ def run_gap(case, ctx):
     ctx.nontrivial(['gap', n, int(g)])
 
 
+def run_bigrank(case, ctx):
+    """Pairs of operands with large, different, non-uniform rank profiles
+    (rank products per core pair up to 2^18, far above what the small modes
+    can carry): the pair routines against the dense tensors."""
+    import teneva
+    rng = np.random.default_rng(case['seed'])
+    d = int(rng.integers(3, 5))
+    n = [int(rng.integers(2, 4)) for _ in range(d)]
+
+    def prof():
+        hi = [8, 16, 24, 40, 48][int(rng.integers(5))]
+        return [1] + [int(rng.integers(2, hi + 1)) for _ in range(d - 1)] + [1]
+    r1, r2 = prof(), prof()
+    j = int(rng.integers(1, d - 1))          # one pair of wide bonds for sure
+    r1[j], r1[j + 1] = int(rng.integers(10, 17)), int(rng.integers(30, 49))
+    r2[j], r2[j + 1] = int(rng.integers(12, 21)), int(rng.integers(12, 21))
+    if rng.random() < 0.5:
+        r1, r2 = r2, r1
+    Y1 = [G / np.sqrt(G.shape[0]) for G in gen.cores(rng, n, r1, 'normal')]
+    Y2 = [G / np.sqrt(G.shape[0]) for G in gen.cores(rng, n, r2, 'normal')]
+    A1, A2 = ref.dense_ld(Y1), ref.dense_ld(Y2)
+    B1, B2 = ref.absbound(Y1), ref.absbound(Y2)
+    nt = ref.nterms(Y1) + ref.nterms(Y2) + sum(n)
+    want = np.sum(A1 * A2)
+    tol = C * nt * EPS * np.sum(B1 * B2)
+    what = f'ranks {r1} and {r2}, shape {n}'
+    for X, Z, nm in ((Y1, Y2, '(Y1, Y2)'), (Y2, Y1, '(Y2, Y1)')):
+        ctx.close('big-rank-pair', teneva.mul_scalar(X, Z), want, tol,
+            f'mul_scalar{nm}, {what}')
+        v, p = teneva.mul_scalar(X, Z, use_stab=True)
+        ctx.close('big-rank-pair', LD(v) * LD(2) ** int(p), want, tol,
+            f'mul_scalar{nm} with use_stab, {what}')
+    for X, A, B in ((Y1, A1, B1), (Y2, A2, B2)):
+        ctx.close('big-rank-pair', LD(teneva.norm(X)) ** 2, np.sum(A * A),
+            2 * C * nt * EPS * np.sum(B * B), f'norm^2, {what}')
+    acc = teneva.accuracy(Y1, Y2)
+    wa = np.sqrt(np.sum((A1 - A2) ** 2) / np.sum(A2 * A2))
+    ta = 4 * C * nt * EPS * np.sum((B1 + B2) ** 2) / np.sum(A2 * A2) / max(wa,
+        LD(1e-300))
+    ctx.close('big-rank-pair', acc, wa, ta + 1e-12 * wa, f'accuracy(Y1, Y2), '
+        f'{what}')
+    if max(a * b for a, b in zip(r1, r2)) <= 400:
+        Pm = teneva.mul(Y1, Y2)
+        if ctx.check('big-rank-pair', ref.wellformed(Pm, n) is None,
+                f'mul(Y1, Y2) malformed, {what}'):
+            ctx.close('big-rank-pair', ref.dense_ld(Pm), A1 * A2, C * nt * EPS
+                * B1 * B2, f'mul(Y1, Y2), {what}')
+    ctx.nontrivial(['bigrank', n, max(a * b * c_ * e_ for a, b, c_, e_ in
+        zip(r1[:-1], r2[:-1], r1[1:], r2[1:])) >= 1 << 16])
+
+
 def run_manysum(case, ctx):
     """Long sums: add applied 16..40 times in a row, and the same list
     through add_many (its rounding steps are C02's subject; here only 'the
@@ -611,6 +664,8 @@ def run_case(case, ctx):
     ctx.abs_floor = 1e-300
     if case.get('kind') == 'manysum':
         return run_manysum(case, ctx)
+    if case.get('kind') == 'bigrank':
+        return run_bigrank(case, ctx)
     if case.get('kind') == 'shared':
         return run_shared(case, ctx)
     if case.get('kind') == 'gap':
